@@ -673,6 +673,9 @@ fn obs_digest(o: &Obs) -> u64 {
     h.finish()
 }
 
+/// Thorough tier: explore the full alphabet to depth 2 (set by the C05 and C08 plans).
+pub static DEEP: std::sync::atomic::AtomicBool = std::sync::atomic::AtomicBool::new(false);
+
 #[derive(Clone, Copy, PartialEq, Eq, Debug)]
 pub enum Tier {
     Quick,
@@ -719,7 +722,8 @@ pub fn explore_scheme<S: Sch>(tier: Tier, rep: &mut Report) -> Vec<Node<S>> {
         Tier::Thorough => {
             // full alphabet to depth 2 on one scheme per signature family (and the CombinedKey/ed25519
             // combination that carries the known finding); depth 1 on the others, which share the code
-            let full_depth = if ["k256", "ed", "comb-ed"].contains(&S::NAME) { 2 } else { 1 };
+            // (only in the runs of the properties that own the graph, C05 and C08: DEEP)
+            let full_depth = if DEEP.load(std::sync::atomic::Ordering::Relaxed) && ["k256", "ed", "comb-ed"].contains(&S::NAME) { 2 } else { 1 };
             let core_depth = if S::VAR_LEN { 2 } else { 3 };
             out.extend(bfs::<S>(roots, &full, &Explore { depth: full_depth, faults: true, max_states: 2_000_000, label: "full".into(), keep_all: false }, rep));
             let r2 = clone_roots(None, rep);
